@@ -15,6 +15,7 @@ CONSTANTS
     AdoptNewFs = TRUE
     RestoreOnInit = TRUE
     UnknownUnmountOK_G = TRUE
+    OverwriteRecord = TRUE
 INIT GenInit
 NEXT GenNext
 VIEW core
